@@ -1,6 +1,7 @@
 import PonyVerif.Drive.Util
 import PonyVerif.Model.PyPrint
 import PonyVerif.Model.PreTrans
+import PonyVerif.Model.Scope
 import PonyVerif.Gen.C04Src
 /-
   line-protocol entry for the C04 model.
@@ -214,6 +215,17 @@ partial def nodesOf : List Json → Except String Nodes
   | j :: t => do pure (.cons (← nodeOf j) (← nodesOf t))
 end
 
+def envOf (j : Json) : Except String PonyVerif.Model.Scope.Env := do
+  (← asArr j).mapM (fun p => do
+    match ← asArr p with
+    | [k, v] => pure ((← asStr k), (← (fromJson? v : Except String Int)))
+    | _ => throw "env pair")
+def optEnvOf (j : Json) (k : String) : Except String (Option PonyVerif.Model.Scope.Env) :=
+  match j.getObjVal? k with
+  | .ok .null => pure none
+  | .ok v => do pure (some (← envOf v))
+  | .error _ => pure none
+
 def handle (j : Json) : Except String Json := do
   let op ← argStr j "op"
   match op with
@@ -222,6 +234,20 @@ def handle (j : Json) : Except String Json := do
       let ts := toks e
       let p := match parse ts with | some x => jE x | none => Json.null
       pure (Json.mkObj [("src", .str (srcText e)), ("parse", p), ("norm", jE (norm e)), ("ntoks", .num (JsonNumber.fromNat ts.length))])
+  | "resolve" =>
+      let kind ← match ← argStr j "kind" with
+        | "generator" => pure PonyVerif.Model.Scope.QKind.generator
+        | "function" => pure PonyVerif.Model.Scope.QKind.function
+        | "text" => pure PonyVerif.Model.Scope.QKind.text
+        | k => throw s!"kind {k}"
+      let sc : PonyVerif.Model.Scope.Scopes := {
+        callerLocals := ← envOf (← j.getObjVal? "callerLocals"), callerGlobals := ← envOf (← j.getObjVal? "callerGlobals"),
+        ownLocals := ← envOf (← j.getObjVal? "ownLocals"), ownGlobals := ← envOf (← j.getObjVal? "ownGlobals"),
+        cells := ← envOf (← j.getObjVal? "cells"), globalNames := ← (← argArr j "globalNames").mapM asStr,
+        explicitGlobals := ← optEnvOf j "explicitGlobals", explicitLocals := ← optEnvOf j "explicitLocals" }
+      let names ← (← argArr j "names").mapM asStr
+      pure (Json.mkObj [("values", .arr (names.map (fun n => match PonyVerif.Model.Scope.resolve kind sc n with
+        | some v => Json.num (JsonNumber.fromInt v) | none => Json.null)).toArray)])
   | "classify" =>
       let t ← nodeOf (← j.getObjVal? "t")
       let ctx ← (← argArr j "ctx").mapM asStr
